@@ -403,17 +403,17 @@ FIX_COMMITS = ["fbab396", "2f3f16f", "a14fcdf", "43ef2dd", "faf6cb2"]
 PROPS["C19"] = {
     "title": "Index construction is schedule-independent and lookups are exact",
     "kani": lambda tier: [],
-    "verus": [("graphfn", r"^BaseGraph::(finish_serial_indices|finish_indices|lemma_index_ok|len)$|^DebruijnGraph::(search_kmer|find_link|get_node|len)$|^PackedDnaStringSet::(get|len)$")],
+    "verus": [("graphfn", r"^BaseGraph::(finish_serial_indices|finish_indices|lemma_index_ok|lemma_lookup_determined|len)$|^DebruijnGraph::(search_kmer|find_link|get_node|len)$|^PackedDnaStringSet::(get|len)$")],
     "bounded": lambda tier: [],
     "design_ref": "DESIGN.md §6 C19",
     "undecided": [
         "schedule independence and run-to-run determinism of the parallel builder: boomphf's BoomHashMap::new_parallel (rayon) is ASSUMED to return exactly the given (key, value) pairs in some slot order, like the serial BoomHashMap::new - that assumption IS the clause 'for every thread count and scheduling'; Kani has no threads and the MPHF construction is third-party code outside both verifiers",
-        "'identical to the serially built one' for edge lists / node order beyond the end indices: follows from the index contract for search_kmer / find_link / find_edges (C03), not stated as a relational theorem between finish() and finish_serial()",
+        "'identical to the serially built one': proved for end lookups as the lemma lemma_lookup_determined (two graphs over the same nodes that both satisfy the index contract - finish() vs finish_serial(), or two runs - admit only identical search_kmer answers); for find_link / edge lists it follows from their contracts being functions of those lookups, not stated as a separate relational theorem; node order is that of BaseGraph and untouched by finish",
         "the first statement of finish / finish_serial (`(0..n as u32).collect()`: iterator adapter) and the closing struct literal are outside the extracted statement range: `indices == [0, n)` is the wrapper's precondition",
         "graphs of >= 10^5 nodes, thread-pool sizes: nothing here depends on sizes (unbounded proof), but nothing here runs threads either"],
     "trust": VERUS_TRUST + GRAPH_TRUST + [SEAM_NOTE,
         "boomphf BoomHashMap::{new, new_parallel, get}: a finite map holding exactly the given pairs, with key-verified lookup (assumed; for new_parallel this includes schedule independence)"],
-    "level_text": "Partial claim - the clause 'a k-mer is found as a node end exactly when some node starts or ends with it, never otherwise': (1) the two index-building statements of BOTH BaseGraph::finish_serial and BaseGraph::finish (rule R15 statement ranges on the real bodies: the loops collecting every node's first / last k-mer through PackedDnaStringSet::get + first_kmer / last_kmer, and the hash-map constructor call) are proved to produce a well-formed graph - every node's first (last) k-mer maps to that node's id and no other key is present (DebruijnGraph::wf / index_ok), given node sequences of at least K bases, fewer than 2^32 nodes and pairwise different end k-mers (Verus, unbounded); (2) on a well-formed graph the real search_kmer returns Some(id) only for a node whose end on that side spells the query and None only if no node end does, and find_link resolves exactly the facing / reverse-complement end (Verus, unbounded).",
+    "level_text": "Partial claim - the clause 'a k-mer is found as a node end exactly when some node starts or ends with it, never otherwise': (1) the two index-building statements of BOTH BaseGraph::finish_serial and BaseGraph::finish (rule R15 statement ranges on the real bodies: the loops collecting every node's first / last k-mer through PackedDnaStringSet::get + first_kmer / last_kmer, and the hash-map constructor call) are proved to produce a well-formed graph - every node's first (last) k-mer maps to that node's id and no other key is present (DebruijnGraph::wf / index_ok), given node sequences of at least K bases, fewer than 2^32 nodes and pairwise different end k-mers (Verus, unbounded); (2) on a well-formed graph the real search_kmer returns Some(id) only for a node whose end on that side spells the query and None only if no node end does, and find_link resolves exactly the facing / reverse-complement end (Verus, unbounded); (3) lemma_lookup_determined: any two graphs over the same node set that satisfy the index contract - whichever builder, thread count or schedule produced them - admit only identical answers to every end lookup.",
     "level_note": "PARTIAL: schedule independence itself is assumed inside BoomHashMap::new_parallel's contract, not decided (see undecided_clauses). Trusted: Verus/Z3, extractor rules, the abstract boomphf contracts, the V<->K seam.",
 }
 
